@@ -135,8 +135,9 @@ def run(case):
         STATS.cls("contention_at_fatal", bool(case.get("busy") or case.get("slow")))
         STATS.cls("style_" + case["style"])
         STATS.cls("console_not_writable", bool(case.get("stderrFull")))
+        STATS.cls("sink_reporting_a_failed_flush_in_front_of_the_file_sink", bool(case.get("troubled")))
         nontrivial = len(pre) >= 1
-        STATS.note_case({k: case[k] for k in ("style", "sink", "L", "compress", "threads", "fatalThread", "fatalVia", "busy", "slow", "siblings", "fatalSize", "app")} | {"old": case.get("old", 0), "netFile": bool(case.get("netFile")), "stderrFull": bool(case.get("stderrFull")), "installFirst": bool(case.get("installFirst")), "extraFile": bool(case.get("extraFile"))} | {"npre": len(pre), "sizes": sorted(set(sizes))[:6]}, nontrivial)
+        STATS.note_case({k: case[k] for k in ("style", "sink", "L", "compress", "threads", "fatalThread", "fatalVia", "busy", "slow", "siblings", "fatalSize", "app")} | {"old": case.get("old", 0), "netFile": bool(case.get("netFile")), "stderrFull": bool(case.get("stderrFull")), "installFirst": bool(case.get("installFirst")), "extraFile": bool(case.get("extraFile")), "troubled": case.get("troubled", "")} | {"npre": len(pre), "sizes": sorted(set(sizes))[:6]}, nontrivial)
         # oracle
         last_pre = -1
         per_thread_last = {}
@@ -253,6 +254,8 @@ def strategy():
             fatalSize=draw(st.sampled_from([0, 10, 200, BUF + 5])),
             app=draw(st.booleans()),
             installFirst=draw(st.sampled_from([False, False, True])) if style in ("fluent", "nested") else False,
+            # a sink whose flush() reports failure sits in front of the healthy file sink: a FileSink on a full volume, a custom sink
+            troubled=draw(st.sampled_from(["", "", "devfull", "custom"])) if style in ("fluent", "nested") else "",
             extraFile=draw(st.sampled_from([False, False, True])),
         )
 
